@@ -18,9 +18,20 @@ SEEDED = os.path.join(ROOT, 'seeded')
 PY = '/venv/bin/python'
 
 
-def sh(cmd, cwd=None, env=None, timeout=3600):
-    p = subprocess.run(cmd, cwd=cwd, env=env, capture_output=True, text=True, timeout=timeout)
-    return p.returncode, p.stdout + p.stderr
+def sh(cmd, cwd=None, env=None, timeout=1500):
+    # own process group, so that a run that exceeds the time limit can be stopped together with its worker processes
+    p = subprocess.Popen(cmd, cwd=cwd, env=env, stdout=subprocess.PIPE, stderr=subprocess.STDOUT, text=True, start_new_session=True)
+    try:
+        out, _ = p.communicate(timeout=timeout)
+        return p.returncode, out
+    except subprocess.TimeoutExpired:
+        import signal
+        try:
+            os.killpg(p.pid, signal.SIGKILL)
+        except OSError:
+            pass
+        out, _ = p.communicate()
+        return -9, (out or '') + '\nTIMEOUT after %d s' % timeout
 
 
 def main(argv):
